@@ -33,7 +33,9 @@ CHECKS.update({
                 note=OTHER_NOTE),
     "C04": dict(cat="other", ref="DESIGN §8 C04, App. A.3",
                 text="canonicalise's sweep/centre/direction discipline proved for all chain lengths and stop sites from the current source (pyvc: loop invariant, "
-                     "inlined iter_idx_list/_switch_direction, _push_cano by contract); which entry of a per-bond limit list applies to the bond cut at a site (mechanical "
+                     "inlined iter_idx_list/_switch_direction, _push_cano by contract); Engine S kernel-stub mode: canonicalise / ensure_* / partial sweeps / lossless compress "
+                     "around trivially factorised blocks leave the represented object and the labels unchanged for all tensor values (states, sums, operator images, operators, "
+                     "density operators; 2000+ obligations); which entry of a per-bond limit list applies to the bond cut at a site (mechanical "
                      "slice of the sweep loop of compress, all inputs); counter-models are replayed on the real methods; dense preservation, isometries, bond bounds, lossless compress and "
                      "variational compression are runtime contracts on bounded inputs.",
                 technique="contract-based deductive verification (pyvc, z3) of the index discipline; runtime contracts as bounded stand-in for the numeric clauses",
@@ -111,11 +113,15 @@ CHECKS.update({
                 technique="contract-based deductive verification (pyvc slice + z3 lemmas) of the sign bookkeeping; runtime contracts against an independent anticommuting-operator "
                           "reference (bounded stand-in)",
                 note=OTHER_NOTE),
-    "C18": dict(cat="exploration", ref="DESIGN §8 C18",
-                text="Kernel contracts evaluated at run time: expm_krylov vs scipy expm to its own stopping tolerance over structured spectra / start vectors inside "
+    "C18": dict(cat="other", ref="DESIGN §8 C18, 5.3, S.2",
+                text="Engine S kernel-stub mode: svd_qn runs on matrices of indeterminates (allowed and forbidden positions) with each LAPACK call replaced by a trivial exact "
+                     "factorisation of the block; restoration of exactly the symmetry-allowed part, the label rule on the support of every output column, pairing and shapes "
+                     "are decided exactly for every label pattern on blocks up to 3x3 (4x4 thorough), one and two components, SVD economic/full and QR/RQ economic/full. "
+                     "Kernel contracts evaluated at run time: expm_krylov vs scipy expm to its own stopping tolerance over structured spectra / start vectors inside "
                      "invariant subspaces / all dt phases / block sizes; svd_qn, eigh_qn and helpers (orthonormal factors, exact restoration of the symmetry-allowed "
                      "part, labels, global sort, pairing) exhaustively over all label patterns on <= 3x3 blocks. Bounded; floating-point kernels cannot be proved here.",
-                technique="runtime contracts on the real kernels over bounded-exhaustive label patterns and structured matrices (bounded stand-in)",
+                technique="exact symbolic execution of the real svd_qn with stubbed factorisations (bookkeeping, all matrix values); runtime contracts on the real kernels "
+                          "over bounded-exhaustive label patterns and structured matrices (bounded stand-in for the floating-point clauses)",
                 note=OTHER_NOTE),
     "C11": dict(cat="other", ref="DESIGN §8 C11",
                 text="Exact symbolic execution of the real TTNS/TTNO code (todense, add, scale, apply, expectation, 1-DoF RDMs) for EVERY rooted ordered tree shape with up to 4(5) nodes "
@@ -173,7 +179,7 @@ def main():
             {"name": "pyvc", "path": "vk/pyvc", "serves_properties": ["C02", "C03", "C04", "C05", "C06", "C14", "C17", "C20"], "kind_free_text": "AST -> verification conditions (loop invariants, call by contract) -> z3/cvc5"},
             {"name": "exact-exec", "path": "vk/symx/exactexec.py", "serves_properties": ["C19"], "kind_free_text": "real source executed on exact rationals / z3 reals"},
             {"name": "effects", "path": "vk/pyvc/effects.py", "serves_properties": ["C13"], "kind_free_text": "alias / effect analysis of the real source against sidecar modifies clauses"},
-            {"name": "symx", "path": "vk/symx", "serves_properties": ["C01", "C02", "C03", "C07", "C11"], "kind_free_text": "real NumPy-level code executed on exact symbolic polynomial scalars; identities decided by normal form"},
+            {"name": "symx", "path": "vk/symx", "serves_properties": ["C01", "C02", "C03", "C04", "C07", "C11", "C18"], "kind_free_text": "real NumPy-level code executed on exact symbolic polynomial scalars; identities decided by normal form"},
             {"name": "rtc", "path": "vk/rtc", "serves_properties": ["C01", "C02", "C03", "C04", "C05", "C06", "C07", "C08", "C09", "C10", "C11", "C12", "C13", "C14", "C15", "C16", "C17", "C18", "C20"], "kind_free_text": "runtime contracts on the real functions, bounded-exhaustive inputs (bounded stand-in, never counted as proved)"},
         ],
         "checks": checks,
